@@ -726,9 +726,14 @@ def arbitrary_exception(interp, classes=COMMON_EXCEPTIONS, with_arbitrary=True):
     msg = SStr(interp.st.fresh_str('exception.message'))
     e = cls.__new__(cls)
     e.args = (msg,)
-    if issubclass(cls, SyntaxError):
+    if issubclass(cls, (SyntaxError, re_error())):
         e.msg = msg
     return e
+
+
+def re_error():
+    import re
+    return re.error
 
 
 @model(builtins.eval)
